@@ -24,7 +24,7 @@ DocOf(outline) ==
    LET n == Len(vBg) + Len(vSc)
        bg == [t |-> "Background", id |-> Len(vBg), line |-> 2, col |-> 1, kw |-> <<66>>, name |-> <<>>, desc |-> <<>>, steps |-> BgSteps0]
        ex == [t |-> "Examples", id |-> n + 3, line |-> 80, col |-> 1, tags |-> <<>>, kw |-> <<69>>, name |-> <<>>, desc |-> <<>>,
-              header |-> <<RowOf(n + 1, <<104>>)>>, body |-> <<RowOf(n + 2, <<49>>)>>]
+              header |-> <<RowOf(n + 1, <<104>>)>>, body |-> <<RowOf(n + 2, <<49>>), RowOf(n + 5, <<50>>)>>]
        sc == [t |-> "Scenario", id |-> n + 4, line |-> 50, col |-> 1, tags |-> <<>>, kw |-> <<83>>, name |-> <<115>>, desc |-> <<>>, steps |-> ScSteps0,
               examples |-> IF outline THEN <<ex>> ELSE <<>>]
    IN [feature |-> << [t |-> "Feature", line |-> 1, col |-> 1, tags |-> <<>>, lang |-> <<101, 110>>, kw |-> <<70>>, name |-> <<102>>, desc |-> <<>>, kids |-> <<bg, sc>>] >>,
@@ -37,7 +37,8 @@ Inv_FromKeyword == vSeen => LET ts == TypesOf(DocOf(FALSE)) IN
    /\ \A j \in 1..Len(ts) : /\ (All[j] \in {"Context", "Action", "Outcome", "Unknown"} => ts[j] = All[j])
                             /\ (All[j] = "Conjunction" /\ j = 1 => ts[j] = "Unknown")
                             /\ (All[j] = "Conjunction" /\ j > 1 => ts[j] = ts[j - 1])
-Inv_PlainEqualsOutline == vSeen => TypesOf(DocOf(FALSE)) = TypesOf(DocOf(TRUE))
+Inv_PlainEqualsOutline == vSeen => /\ TypesOf(DocOf(FALSE)) = TypesOf(DocOf(TRUE))
+                                   /\ LET pk == Compile(DocOf(TRUE), <<117>>, 100) IN [j \in 1..Len(pk[2].steps) |-> pk[2].steps[j].type] = TypesOf(DocOf(TRUE))   \* every row alike
 Inv_P_C10 == vSeen => P_C10(Compile(DocOf(TRUE), <<117>>, 100), EPs(DocOf(TRUE), <<117>>)) /\ P_C10(Compile(DocOf(FALSE), <<117>>, 100), EPs(DocOf(FALSE), <<117>>))
 Emit == vSeen => PrintT(<<"TYPES", ToJson([bg |-> vBg, sc |-> vSc, plain |-> TypesOf(DocOf(FALSE)), outline |-> TypesOf(DocOf(TRUE))])>>)
 =============================================================================
